@@ -539,10 +539,17 @@ class HashCtx:
         env = dict(os.environ)
         env["PYTHONHASHSEED"] = str(self.hashseed)
         env["VERIF_HASHCTX"] = "1"
+        # "in every process": besides the hash seed, a fresh interpreter differs in
+        # its environment -- locale, time zone, working directory, process id
+        v = self.hashseed % 7
+        env["LC_ALL"] = ["C", "C.UTF-8", "POSIX", "C.UTF-8", "C", "en_US.UTF-8", "C.UTF-8"][v]
+        env["LANG"] = env["LC_ALL"]
+        env["TZ"] = ["UTC", "America/New_York", "Asia/Tokyo", "Pacific/Kiritimati", "UTC", "Europe/Berlin", "UTC"][v]
+        cwd = ["/", "/tmp", None][self.hashseed % 3]
         self.p = subprocess.Popen(
             [sys.executable, os.path.join(bootstrap.VERIF, "vcheck.py"), "_hashctx"],
             stdin=subprocess.PIPE, stdout=subprocess.PIPE, env=env, text=True,
-            encoding="utf8", bufsize=1)
+            encoding="utf8", bufsize=1, cwd=cwd)
 
     def ask(self, op, full=False):
         self.p.stdin.write(json.dumps({"op": op, "full": full}) + "\n")
